@@ -9,6 +9,7 @@ import (
 	"runtime"
 	"strconv"
 	"strings"
+	"unsafe"
 
 	"github.com/postalsys/muti-metroo/internal/identity"
 	"github.com/postalsys/muti-metroo/internal/protocol"
@@ -1100,6 +1101,20 @@ func c05Run(line string) string {
 			return "ok " + hexTok(b) + " | err"
 		}
 		return "ok " + hexTok(b) + " | " + c05Toks(k, m2)
+	case "encnw": // Encode of an in-memory value that need not be within the wire limits: bytes or a panic
+		k := c05ByName[f[1]]
+		m, ok := c05Parse(k, f[2:])
+		if !ok {
+			return "bad-op"
+		}
+		return func() (res string) {
+			defer func() {
+				if r := recover(); r != nil {
+					res = "encode-panic"
+				}
+			}()
+			return "ok " + hexTok(k.enc(m))
+		}()
 	case "dec":
 		k := c05ByName[f[1]]
 		m, err := k.dec(unhexTok(f[2]))
@@ -1155,10 +1170,20 @@ func c05Run(line string) string {
 	return "bad-op"
 }
 
+// c05DecLimit: largest decoder input generated for a kind. The codecs are exercised beyond the frame
+// payload size, except ControlResponse whose re-encode statement (ControlResponse_reencode) is about
+// inputs up to the frame size: its decoder takes a 16-bit data length while the encoder clips at 16372.
+func c05DecLimit(kind string) int {
+	if kind == "ctrlresp" {
+		return protocol.MaxPayloadSize
+	}
+	return 1 << 20
+}
+
 // c05Mutate writes decoder ops for mutated variants of a valid encoding.
 func c05Mutate(w *bufio.Writer, r *rng, k *c05Kind, b []byte, perBase int, exhaustive bool) {
 	emit := func(x []byte) {
-		if len(x) <= protocol.MaxPayloadSize { // C05 quantifies over byte strings up to the frame payload size
+		if len(x) <= c05DecLimit(k.name) {
 			fmt.Fprintf(w, "dec %s %s\n", k.name, hexTok(x))
 		}
 	}
@@ -1314,29 +1339,36 @@ func c05Gen(w *bufio.Writer, seed int64, tier string) {
 		for _, m := range c05Boundary(k.name, r) {
 			fmt.Fprintf(w, "rt %s %s\n", k.name, c05Toks(k, m))
 			b := k.enc(m)
-			if len(b) <= protocol.MaxPayloadSize {
+			if len(b) <= c05DecLimit(k.name) {
 				fmt.Fprintf(w, "dec %s %s\n", k.name, hexTok(b))
+				fmt.Fprintf(w, "alloc %s %s\n", k.name, hexTok(b))
 			}
 		}
 		for i := 0; i < nStruct; i++ {
 			m := k.gen(r)
 			fmt.Fprintf(w, "rt %s %s\n", k.name, c05Toks(k, m))
 			b := k.enc(m)
-			if len(b) <= protocol.MaxPayloadSize {
+			if len(b) <= c05DecLimit(k.name) {
 				fmt.Fprintf(w, "dec %s %s\n", k.name, hexTok(b))
 			}
 			c05Mutate(w, r, k, b, perBase, false)
 			if i < nExh {
 				c05Mutate(w, r, k, b, 0, true)
 			}
-			if i%4 == 0 && len(b) <= protocol.MaxPayloadSize {
+			if i%4 == 0 && len(b) <= c05DecLimit(k.name) {
 				fmt.Fprintf(w, "alloc %s %s\n", k.name, hexTok(b))
 			}
 		}
 		for i := 0; i < nRandom; i++ { // unstructured bytes
 			n := r.pick(0, 1, 7, 8, 14, 27, 28, 45, 97, 98, 200, 1000)
-			if i == 0 {
+			switch i {
+			case 0:
 				n = 16384
+			case 1: // the codecs are not limited to the frame payload size
+				n = r.pick(16385, 20000, 65536, 70000)
+			}
+			if n > c05DecLimit(k.name) {
+				n = c05DecLimit(k.name)
 			}
 			b := r.bytes(n)
 			if r.chance(50) { // mostly-zero / mostly-ff buffers reach deeper than uniform noise
@@ -1349,6 +1381,45 @@ func c05Gen(w *bufio.Writer, seed int64, tier string) {
 			}
 			fmt.Fprintf(w, "dec %s %s\n", k.name, hexTok(b))
 			fmt.Fprintf(w, "alloc %s %s\n", k.name, hexTok(b))
+		}
+	}
+	// Encode on values OUTSIDE the wire limits: a route whose prefix does not have the size its family implies
+	// (RouteAdvertise sizes its buffer from the family; RouteWithdraw slices Prefix[:size])
+	nnw := 40
+	if tier == "thorough" {
+		nnw = 1500
+	}
+	for i := 0; i < nnw; i++ {
+		adv := r.chance(50)
+		nr := r.pick(1, 1, 2, 3, 6)
+		routes := make([]protocol.Route, nr)
+		for j := range routes {
+			if adv {
+				routes[j] = c05GenAdvRoute(r)
+			} else {
+				routes[j] = c05GenWdRoute(r)
+			}
+			if r.chance(60) {
+				switch r.intn(4) {
+				case 0:
+					routes[j].Prefix = r.bytes(len(routes[j].Prefix) + r.pick(1, 2, 12, 100))
+				case 1:
+					if len(routes[j].Prefix) > 0 {
+						routes[j].Prefix = routes[j].Prefix[:len(routes[j].Prefix)-1]
+					}
+				case 2:
+					routes[j].Prefix = nil
+				case 3:
+					routes[j].Prefix = r.bytes(r.pick(1, 3, 4, 5, 15, 16, 17))
+				}
+			}
+		}
+		if adv {
+			m := &protocol.RouteAdvertise{OriginAgent: c05GenID(r), OriginDisplayName: c05GenStr(r), Sequence: c05GenU64(r), Routes: routes, Path: c05GenIDs(r), SeenBy: c05GenIDs(r)}
+			fmt.Fprintf(w, "encnw routeadv %s\n", c05Toks(c05ByName["routeadv"], m))
+		} else {
+			m := &protocol.RouteWithdraw{OriginAgent: c05GenID(r), Sequence: c05GenU64(r), Routes: routes, SeenBy: c05GenIDs(r)}
+			fmt.Fprintf(w, "encnw routewd %s\n", c05Toks(c05ByName["routewd"], m))
 		}
 	}
 	// QueuedState: counts maximised with nothing behind them (pre-allocation from a 2-byte count)
@@ -1405,5 +1476,9 @@ func c05Facts(w *bufio.Writer) {
 	fmt.Fprintf(w, "def addrFamilyIPv4 : Nat := %d\ndef addrFamilyIPv6 : Nat := %d\ndef addrFamilyDomain : Nat := %d\ndef addrFamilyForward : Nat := %d\ndef addrFamilyAgent : Nat := %d\n",
 		protocol.AddrFamilyIPv4, protocol.AddrFamilyIPv6, protocol.AddrFamilyDomain, protocol.AddrFamilyForward, protocol.AddrFamilyAgent)
 	fmt.Fprintf(w, "def frameRouteAdvertise : Nat := %d\n", protocol.FrameRouteAdvertise)
+	fmt.Fprintf(w, "def sizeofRoute : Nat := %d\ndef sizeofPeerInfo : Nat := %d\ndef sizeofListenerInfo : Nat := %d\ndef sizeofString : Nat := %d\n",
+		unsafe.Sizeof(protocol.Route{}), unsafe.Sizeof(protocol.PeerConnectionInfo{}), unsafe.Sizeof(protocol.ForwardListenerInfo{}), unsafe.Sizeof(""))
+	fmt.Fprintf(w, "def sizeofRouteAdvertise : Nat := %d\ndef sizeofRouteWithdraw : Nat := %d\ndef sizeofNodeInfoAdvertise : Nat := %d\ndef sizeofAgentID : Nat := %d\n",
+		unsafe.Sizeof(protocol.RouteAdvertise{}), unsafe.Sizeof(protocol.RouteWithdraw{}), unsafe.Sizeof(protocol.NodeInfoAdvertise{}), unsafe.Sizeof(identity.AgentID{}))
 	fmt.Fprintf(w, "end MM.Gen.C05\n")
 }
